@@ -20,7 +20,7 @@ def harness_name(e, n):
     return 'h_%s_n%d' % (e.get('name', e['fn']), n)
 
 
-def H(fn, props, ns_q=Q, ns_t=T, unwind=lambda n: n + 3, **kw):
+def H(fn, props, ns_q=Q, ns_t=T, unwind=lambda n: n + 4, **kw):
     props = props.split()
     e = dict(fn=fn, props=props, ns={'quick': ns_q, 'thorough': ns_t}, unwind=unwind)
     e.update(kw)
@@ -29,6 +29,19 @@ def H(fn, props, ns_q=Q, ns_t=T, unwind=lambda n: n + 3, **kw):
     else:
         e['untagged'] = e['untagged'].split()
     return e
+
+
+def W(fn, props, **kw):
+    """watched variant of a contract: same function with the C05/C06 destructor / user-code
+    preconditions armed (they are expensive for CBMC, so they get their own harness)"""
+    kw.setdefault('ns_q', [1, 2])
+    kw.setdefault('ns_t', [1, 2, 3])
+    gen = kw.pop('gen', None)
+    if gen:
+        call = lambda n, g=gen: '{ enable_watch(); %s }' % g(n)
+    else:
+        call = lambda n, f=fn: '{ enable_watch(); %s::<%d>() }' % (f, n)
+    return H(fn, props, name=fn + '_w', call=call, untagged='', **kw)
 
 
 HARNESSES = [
@@ -43,8 +56,42 @@ HARNESSES = [
     H('c_swap', 'C01 C03 C04 C11 C20', ns_q=[1, 3], ns_t=[1, 2, 3, 4, 5]),
     H('c_swap_remove_back', 'C01 C03 C04 C11 C20'),
     H('c_swap_remove_front', 'C01 C03 C04 C11 C20'),
-    H('c_truncate_back', 'C01 C03 C04 C05 C11 C20', unwind=lambda n: n + 3),
-    H('c_truncate_front', 'C01 C03 C04 C05 C11 C20'),
-    H('c_clear', 'C01 C03 C04 C05 C11'),
-    H('c_drop_buffer', 'C03 C05 C11'),
+    H('c_truncate_back', 'C01 C03 C04 C11 C20'),
+    H('c_truncate_front', 'C01 C03 C04 C11 C20'),
+    H('c_clear', 'C01 C03 C04 C11'),
+    H('c_drop_buffer', 'C03 C11'),
+    # views
+    H('c_make_contiguous', 'C01 C03 C04 C07 C11 C20', stubs=[('core::slice::rotate::ptr_rotate', 'ptr_rotate_model')], unwind=lambda n: n + 4),
+    H('c_get', 'C01 C04 C07 C11 C20'),
+    H('c_get_mut', 'C01 C04 C07 C11 C20'),
+    H('c_as_slices', 'C04 C07 C11 C20'),
+    H('c_iter_views', 'C04 C07 C08 C11'),
+    # fill family
+    H('c_fill_spare', 'C01 C03 C04 C11'),
+    H('c_fill', 'C01 C03 C04 C11'),
+    H('c_fill_with', 'C01 C03 C04 C11'),
+    # bulk insertion / conversions
+    H('c_extend', 'C01 C03 C04 C11 C12', unwind=lambda n: n + 5),
+    H('c_from_iter', 'C03 C11 C12', unwind=lambda n: n + 5),
+    H('c_extend_from_slice', 'C01 C03 C04 C11', call=lambda n: 'c_extend_from_slice::<%d, %d>()' % (n, n + 2), unwind=lambda n: n + 5),
+    H('c_new', 'C11 C12'),
+    H('c_boxed', 'C12', cfg='feature = "alloc"', ns_q=[0, 3], ns_t=[0, 1, 3]),
+    H('c_clone', 'C03 C04 C11 C12'),
+    H('c_clone_from', 'C03 C04 C11 C12', ns_q=[0, 1, 2], ns_t=[0, 1, 2, 3, 4]),
+    H('c_to_vec', 'C03 C04 C07 C12', cfg='feature = "alloc"', ns_q=[0, 2], ns_t=[0, 1, 2, 3]),
+    H('c_into_iter', 'C03 C04 C08 C11 C12'),
 ]
+HARNESSES += [
+    # destructor precondition (C05) / user-code precondition (C06) variants
+    W('c_truncate_back', 'C05'), W('c_truncate_front', 'C05'), W('c_clear', 'C05'), W('c_drop_buffer', 'C05'),
+    W('c_fill_spare', 'C06'), W('c_fill', 'C05 C06'), W('c_fill_with', 'C05 C06'),
+    W('c_extend', 'C06', unwind=lambda n: n + 5),
+    W('c_extend_from_slice', 'C05 C06', gen=lambda n: 'c_extend_from_slice::<%d, %d>()' % (n, n + 2), unwind=lambda n: n + 5),
+    W('c_clone', 'C06'), W('c_clone_from', 'C05 C06', ns_q=[1, 2], ns_t=[1, 2, 3]),
+    W('c_to_vec', 'C06', cfg='feature = "alloc"', ns_q=[2], ns_t=[1, 2, 3]),
+]
+# From<[T; M]>: (N, M) grid
+for _n, _m, _tier in [(0, 0, 'q'), (0, 2, 'q'), (2, 0, 'q'), (2, 2, 'q'), (2, 3, 'q'), (3, 1, 'q'), (1, 3, 't'), (3, 3, 't'), (3, 5, 't'), (2, 5, 't'), (4, 2, 't'), (1, 1, 't')]:
+    HARNESSES.append(H('c_from_array', 'C03 C11 C12', name='c_from_array_m%d' % _m, call='c_from_array::<{N}, %d>()' % _m,
+                       ns_q=[_n] if _tier == 'q' else [], ns_t=[_n], unwind=lambda n, m=_m: n + m + 4))
+
